@@ -56,10 +56,10 @@ struct Lib {
 
 fn load() -> Result<Lib, String> {
     unsafe {
-        let path = CString::new(cli::LIBMLA).unwrap();
+        let path = CString::new(cli::libmla_path()).unwrap();
         let h = libc::dlopen(path.as_ptr(), libc::RTLD_NOW);
         if h.is_null() {
-            return Err(format!("HARNESS: dlopen({}) failed", cli::LIBMLA));
+            return Err(format!("HARNESS: dlopen({}) failed", cli::libmla_path()));
         }
         macro_rules! sym {
             ($n:expr) => {{
@@ -555,7 +555,7 @@ pub fn worker(args: &[String]) -> i32 {
 fn run(ctx: &Ctx) -> Report {
     let mut rep = Report::new(RULE);
     rep.assume("libmla.so is the cdylib built from /repo/bindings/C in the dev profile (pointer checks of the standard library turn misuse into a deterministic abort); it is loaded with dlopen in worker processes");
-    if !std::path::Path::new(cli::LIBMLA).exists() {
+    if !std::path::Path::new(&cli::libmla_path()).exists() {
         rep.inconclusive = Some("libmla.so missing".into());
         return rep;
     }
